@@ -47,6 +47,9 @@ THREADS = [
     ('[3, 6].exists(v, v == x) ? h(x) + 1000 : (s.matches(p) && y ? h(x) + 2000 : x.h() + 3000)', [{"x": 6, "y": True, "s": "abc", "p": "b"}, {"x": 4, "y": True, "s": "abc", "p": "^b"}], "h2"),
     # a deeply nested expression: only evaluable while the process-wide recursion limit is the one the library raises
     ("DEEP", [{"x": 41, "y": True, "s": "zz", "p": "^z"}, {"x": 43, "y": False, "s": "zzz", "p": "z$"}], None),
+    # thread 1's program with thread 0's host function: beside thread 0 the two programs are identical down to the
+    # generated code (anything keyed by generated text collides), only the bindings differ
+    (RICH, [{"x": 7, "y": True, "s": "dropped", "p": "^dr.p"}, {"x": 0, "y": True, "s": "kk", "p": "^k$"}], "h0"),
 ]
 
 
@@ -308,6 +311,7 @@ def run(ctx):
             (("I", "I"), (), 2, False, "all", "shallow:4"), (("C", "C"), ("C",), 3, False, "eval", "shallow:4"),
             (("C", "C", "I"), (), 1, False, "eval", "call"), (("C", "C", "C"), ("C",), 1, False, "eval", "call"),
             (("C", "C"), ("C",), 1, True, "eval", "line"), (("I", "I"), (), 1, False, "eval", "call"),
+            (("C", "C"), (), 1, False, "eval", "line", (0, 4)), (("C", "C"), ("C",), 1, False, "all", "call", (0, 4)),
             # the deep thread (3) beside a rich one: API-level switch points, higher bounds
             (("I", "I"), (), 3, False, "all", "shallow:2", (0, 3)), (("C", "C"), (), 3, False, "all", "shallow:2", (0, 3)), (("I", "C"), (), 2, False, "all", "shallow:3", (3, 1)),
             (("I", "I"), (), 2, False, "all", "shallow:3", (0, 3)),
@@ -317,7 +321,7 @@ def run(ctx):
         plan = [
             (("C", "C"), (), 1, False, "all", "call"),
             (("C", "I"), (), 1, False, "all", "call"),
-            (("C", "C"), (), 1, False, "eval", "line"),
+            (("C", "C"), (), 1, False, "eval", "line", (0, 4)),
             (("I", "I"), (), 0, False, "all", "call"),
             (("C", "C", "I"), (), 0, False, "all", "call"),
             # the deep thread (3) beside a rich one: API-level switch points (an API function and what it calls directly), two preemptions
@@ -350,11 +354,12 @@ def run(ctx):
             return outcome.run(lambda: env.program(env.compile(expr), functions=functions_of(fn_of)).evaluate(to_cel(b)))
         for i in range(len(THREADS)):
             for j in range(len(THREADS)):
-                if i == j:
-                    continue
+                if i == j or THREADS[i][1] == THREADS[j][1]:
+                    continue                                   # (threads with the same bindings are never run side by side)
                 e, e2, bi, bj = expr_of(i, "I"), expr_of(j, "I"), THREADS[i][1], THREADS[j][1]
                 for n in range(nevals):
-                    out[(i, j, n)] = (ev(e, bi[n], i), ev(e, bj[n], i), ev(e2, bi[n], j), ev(e, bi[n], j) if THREADS[i][2] and THREADS[j][2] else None)
+                    other_fn = THREADS[i][2] and THREADS[j][2] and THREADS[i][2] != THREADS[j][2]
+                    out[(i, j, n)] = (ev(e, bi[n], i), ev(e, bj[n], i), ev(e2, bi[n], j), ev(e, bi[n], j) if other_fn else None)
         return out
     status, table = sched.run_in_fork(collisions)          # one fork: the parent stays free of Environments
     if status != "ok":
